@@ -304,8 +304,15 @@ def declare_initial(b, guesses=None):
 
 
 def param_value(p):
+    """the container a value is handed over in: DM (default), a numpy array, or nested lists"""
     import casadi as ca
-    return ca.DM(np.array(p["value"], dtype=float))
+    arr = np.array(p["value"], dtype=float)
+    form = p.get("value_as", "DM")
+    if form == "numpy":
+        return arr
+    if form == "list":
+        return arr.tolist()
+    return ca.DM(arr)
 
 
 def declare_values(b, params=None):
